@@ -424,6 +424,11 @@ type Out struct {
 	W4    []Point     `json:"w4,omitempty"`
 	Churn []Point     `json:"churn,omitempty"`
 	Late  []SeriesKey `json:"late_series,omitempty"` // series added by the late phase (indexes into Series continue)
+	// Drop5: a catalogue drop (DROP DATABASE / RETENTION POLICY / MEASUREMENT) acknowledged shortly before the kill -9: the
+	// meta leader's deletion round (every 500 ms: delete on the stores, then the Drop command) is cut at an arbitrary point;
+	// W6: written after the restart into the re-created object
+	Drop5 *Drop   `json:"drop5,omitempty"`
+	W6    []Point `json:"w6,omitempty"`
 	// write attempts the server refused before it accepted the batch (the refused attempt may be applied later by the server)
 	Refused []string `json:"refused_write_attempts,omitempty"`
 }
@@ -1184,6 +1189,7 @@ func (rn *runner) writePoints(ps []Point) error {
 }
 
 const churnRounds = 8
+const churnHistories = 8
 const maxLate = 5
 const lateOff = int64(-3000000) // about 35 days before the base time: a shard group and an index of its own
 
@@ -1200,7 +1206,9 @@ func (rn *runner) firstLive() string {
 // churnPoints: per existing measurement one in-order point (newer than everything) and one out-of-order point (older than
 // everything of the ordinary range) on its first series
 func (rn *runner) churnPoints(round int) []Point {
-	if rn.ref.gone {
+	// quick tier: the first churnHistories histories only - the compactor starts a bounded number of compactions per tick (every
+	// 10 s), and with all measurements waiting the last ones are rewritten two ticks later
+	if rn.ref.gone || (os.Getenv("VERIF_TIER") != "thorough" && rn.h.I >= churnHistories) {
 		return nil
 	}
 	var ps []Point
@@ -1450,7 +1458,16 @@ func main() {
 	}
 	rs := make([]*runner, len(hs))
 	settle := func() { time.Sleep(3200 * time.Millisecond) } // index items become searchable <= ~3 s after the write
+	// after writes that no drop follows: the listing barrier (waitVisible) and the re-asking of fresh answers do the rest
+	settleShort := func() { time.Sleep(2000 * time.Millisecond) }
+	t00 := time.Now()
+	trace := func(name string) {
+		if os.Getenv("C13_TRACE") != "" {
+			fmt.Fprintf(os.Stderr, "TRACE %6.1fs %s\n", time.Since(t00).Seconds(), name)
+		}
+	}
 	step := func(name string, f func(rn *runner) error) {
+		trace(name)
 		for _, rn := range rs {
 			if err := f(rn); err != nil {
 				rn.out.StepErrs = append(rn.out.StepErrs, fmt.Sprintf("%s: %v", name, err))
@@ -1459,6 +1476,7 @@ func main() {
 	}
 	// read-only steps run on a few histories at a time (each history has its own runner; the server is shared)
 	pstep := func(name string, f func(rn *runner) error) {
+		trace(name)
 		var wg sync.WaitGroup
 		ch := make(chan *runner)
 		for w := 0; w < 4; w++ {
@@ -1485,7 +1503,7 @@ func main() {
 	if _, err := srv.query("", "create database "+sharedDB); err != nil {
 		fatal("create shared database: %v", err)
 	}
-	step("create", func(rn *runner) error {
+	pstep("create", func(rn *runner) error {
 		if rn.h.DB != sharedDB {
 			if _, err := srv.query("", "create database "+rn.h.DB); err != nil {
 				return err
@@ -1498,11 +1516,11 @@ func main() {
 		}
 		return nil
 	})
-	step("write1", func(rn *runner) error { rn.ref.add(rn.h.W1); return rn.writePoints(rn.h.W1) })
+	pstep("write1", func(rn *runner) error { rn.ref.add(rn.h.W1); return rn.writePoints(rn.h.W1) })
 	_ = srv.ctrl("mod=compen&allshards=true")
 	_ = srv.ctrl("mod=merge&allshards=true")
 	_ = srv.ctrl("mod=flush") // W1 is in files now; W2 (older timestamps) stays in the memtable until after the drop
-	step("write2", func(rn *runner) error { rn.ref.add(rn.h.W2); return rn.writePoints(rn.h.W2) })
+	pstep("write2", func(rn *runner) error { rn.ref.add(rn.h.W2); return rn.writePoints(rn.h.W2) })
 	settle()
 	pstep("visible1", func(rn *runner) error { rn.waitVisible(); return nil })
 	pstep("before", func(rn *runner) error { rn.readAll("before", rn.h.PrimeTF); return nil })
@@ -1549,11 +1567,20 @@ func main() {
 			// ... and right after the drop was acknowledged
 			rn.readRaw("right-after-drop", h.Drop.Mst, tf, tfSQL)
 		}
+		if err == nil && h.Drop.Kind != "series" {
+			// DROP MEASUREMENT / RETENTION POLICY / DATABASE are acknowledged when the object is MARKED in the catalogue; the stores
+			// delete later (within the meta leader's next round): the mark alone must hide the data at once
+			m := h.Drop.Mst
+			if m == "" {
+				m = h.Msts[0]
+			}
+			rn.readRaw("right-after-drop", m, Shape{Name: "select-all", Path: 0}, "select * from "+fullMst(h, m))
+		}
 		return err
 	})
 	pstep("after-drop", func(rn *runner) error { rn.readAll("after-drop", false); return nil })
 	// phase 3: writes after the drop (re-creating what was dropped)
-	step("write3", func(rn *runner) error {
+	pstep("write3", func(rn *runner) error {
 		h := rn.h
 		switch h.Drop.Kind {
 		case "db":
@@ -1576,7 +1603,7 @@ func main() {
 		rn.ref.add(h.W3)
 		return rn.writePoints(h.W3)
 	})
-	settle()
+	settleShort()
 	pstep("visible2", func(rn *runner) error { rn.waitVisible(); return nil })
 	pstep("after-writes", func(rn *runner) error { rn.readAll("after-writes", false); return nil })
 	// phase 4: flush, then force compaction and out-of-order merge: eight write+flush rounds give every measurement eight
@@ -1681,12 +1708,56 @@ func main() {
 			}
 			return nil
 		})
+		// catalogue drops cut by the crash. DROP DATABASE / RETENTION POLICY (databases of their own): half of them about a
+		// second before the kill (the deletion round of the meta leader, every 500 ms, is under way or done), half right before
+		// the series drops. DROP MEASUREMENT flushes the shard's memtable when the store executes it - that would take the rows
+		// of the late series out of the WAL - so measurements are dropped before the SECOND kill further down.
+		catalogueDrop := func(rn *runner, measurements bool) error {
+			h := rn.h
+			var q string
+			switch {
+			case rn.out.Drop5 != nil:
+				return nil
+			case !measurements && h.Drop.Kind == "db" && !rn.ref.gone:
+				q = "drop database " + h.DB
+			case !measurements && h.Drop.Kind == "rp" && !rn.ref.gone:
+				q = fmt.Sprintf("drop retention policy %s on %s", h.RP, h.DB)
+			case measurements && h.Drop.Kind == "measurement" && rn.firstLive() != "":
+				m := rn.firstLive()
+				rn.out.Drop5 = &Drop{Kind: "measurement", Mst: m}
+				rn.ref.applyDrop(rn.out.Drop5)
+				rn.ref.dead[m] = true
+				delete(rn.ref.known, m)
+				_, err := srv.query(h.DB, "drop measurement "+m)
+				return err
+			default:
+				return nil
+			}
+			rn.out.Drop5 = &Drop{Kind: h.Drop.Kind}
+			rn.ref.applyDrop(rn.out.Drop5)
+			rn.ref.gone = true
+			rn.ref.known = map[string]map[string]bool{}
+			_, err := srv.query(h.DB, q)
+			return err
+		}
+		step("drop5-early", func(rn *runner) error {
+			if rn.h.I%2 == 0 {
+				return catalogueDrop(rn, false)
+			}
+			return nil
+		})
 		if d := 3200*time.Millisecond - time.Since(lateAt); d > 0 {
 			time.Sleep(d)
 		}
+		step("drop5-late", func(rn *runner) error {
+			if rn.h.I%2 == 1 {
+				return catalogueDrop(rn, false)
+			}
+			return nil
+		})
 		step("drop2", func(rn *runner) error {
 			h := rn.h
-			if h.DB != sharedDB || rn.ref.gone {
+			if h.DB != sharedDB || rn.ref.gone || rn.out.Drop5 != nil {
 				return nil
 			}
 			for _, m := range h.Msts {
@@ -1713,6 +1784,10 @@ func main() {
 		} else {
 			time.Sleep(1500 * time.Millisecond)
 			pstep("after-crash", func(rn *runner) error {
+				if rn.out.Drop5 != nil {
+					rn.readAll("after-crash", false)
+					return nil
+				}
 				if rn.out.Drop2 != nil || rn.late {
 					// a wrong answer in this phase is classified by the subset of the late drops whose undoing explains it
 					rn.sets, rn.prefer = map[string][]row{}, nil
@@ -1727,6 +1802,116 @@ func main() {
 				}
 				return nil
 			})
+			// the objects dropped right before the crash are created again - refused while the interrupted deletion is being
+			// completed (bounded wait) - and written to; then one more kill -9: nothing of the old objects may come back, neither
+			// now nor when the directories are loaded again
+			step("recreate5", func(rn *runner) error {
+				h := rn.h
+				if rn.out.Drop5 == nil {
+					return nil
+				}
+				retry := func(q string) error {
+					var err error
+					for deadline := time.Now().Add(30 * time.Second); time.Now().Before(deadline); time.Sleep(400 * time.Millisecond) {
+						if _, err = srv.query("", q); err == nil || !strings.Contains(strings.ToLower(err.Error()), "delet") {
+							return err
+						}
+					}
+					return fmt.Errorf("still refused after 30 s: %v", err)
+				}
+				switch rn.out.Drop5.Kind {
+				case "db":
+					if err := retry("create database " + h.DB); err != nil {
+						return err
+					}
+					if h.RP != "" {
+						if err := retry(fmt.Sprintf("create retention policy %s on %s duration 0s replication 1", h.RP, h.DB)); err != nil {
+							return err
+						}
+					}
+					rn.ref.gone = false
+				case "rp":
+					if err := retry(fmt.Sprintf("create retention policy %s on %s duration 0s replication 1", h.RP, h.DB)); err != nil {
+						return err
+					}
+					rn.ref.gone = false
+				}
+				for _, m := range h.Msts {
+					if rn.ref.dead[m] {
+						continue
+					}
+					for s, k := range h.Series {
+						if k.Mst == m {
+							rn.out.W6 = append(rn.out.W6, Point{S: s, T: 120, V: 5}, Point{S: s, T: 55, V: 9})
+							break
+						}
+					}
+				}
+				rn.ref.add(rn.out.W6)
+				return rn.writePoints(rn.out.W6)
+			})
+			any5 := false
+			for _, rn := range rs {
+				any5 = any5 || rn.out.Drop5 != nil || (rn.h.Drop.Kind == "measurement" && rn.firstLive() != "")
+			}
+			if any5 {
+				settleShort()
+				pstep("visible6", func(rn *runner) error {
+					if rn.out.Drop5 != nil {
+						rn.waitVisible()
+					}
+					return nil
+				})
+				pstep("after-recreate", func(rn *runner) error {
+					if rn.out.Drop5 != nil {
+						rn.readAll("after-recreate", false)
+					}
+					return nil
+				})
+				step("drop5-measurement", func(rn *runner) error { return catalogueDrop(rn, true) })
+				srv.kill()
+				if err := srv.start(); err != nil {
+					for _, rn := range rs {
+						rn.out.StepErrs = append(rn.out.StepErrs, "restart after re-creation failed: "+err.Error())
+					}
+				} else {
+					time.Sleep(1500 * time.Millisecond)
+					pstep("after-recreate-restart", func(rn *runner) error {
+						if rn.out.Drop5 != nil {
+							rn.readAll("after-recreate-restart", false)
+						}
+						return nil
+					})
+					// the measurements dropped right before that kill are written to again: a new incarnation
+					anyM := false
+					step("recreate5-measurement", func(rn *runner) error {
+						if rn.out.Drop5 == nil || rn.out.Drop5.Kind != "measurement" {
+							return nil
+						}
+						anyM = true
+						m := rn.out.Drop5.Mst
+						rn.ref.dead[m] = false
+						for s, k := range rn.h.Series {
+							if k.Mst == m {
+								rn.out.W6 = append(rn.out.W6, Point{S: s, T: 120, V: 5}, Point{S: s, T: 55, V: 9})
+								break
+							}
+						}
+						rn.ref.add(rn.out.W6)
+						return rn.writePoints(rn.out.W6)
+					})
+					if anyM {
+						settleShort()
+						pstep("after-recreate-measurement", func(rn *runner) error {
+							if rn.out.Drop5 != nil && rn.out.Drop5.Kind == "measurement" {
+								rn.waitVisible()
+								rn.readAll("after-recreate-measurement", false)
+							}
+							return nil
+						})
+					}
+				}
+			}
 		}
 	}
 	gen.Emit(map[string]any{"compaction": comp})
